@@ -40,12 +40,15 @@ Definition leaf_ast (lk : lkind) (nm : namestr) (fa : list N) (ta : list targ) :
   | LName => AName nm (targ_ast (nth 0 ta (TInt (mkDecl 0 0 0))))
   end.
 
+Fixpoint pel_ast (x : pel) : ast :=
+  match x with PLeaf a => targ_ast a | PSub k n es => APackage k n (map pel_ast es) end.
+
 Fixpoint item_ast (it : item) : ast :=
   match it with
   | IName d => decl_ast d
   | IBlk bk k seg fa body => blk_ast bk k (seg_name seg) fa (map item_ast body)
   | ILeaf lk seg fa ta => leaf_ast lk (seg_name seg) fa ta
-  | IPkg seg k n elems => AName (seg_name seg) (APackage k n (map targ_ast elems))
+  | IPkg seg k n elems => AName (seg_name seg) (APackage k n (map pel_ast elems))
   end.
 
 (** the right number of fixed arguments everywhere *)
@@ -172,6 +175,13 @@ Qed.
 Lemma encode_targs elems : flat_map encode (map targ_ast elems) = enc_ta elems.
 Proof. unfold enc_ta. induction elems as [|a r IH]; [reflexivity|]. cbn [map flat_map]. rewrite IH. destruct a; reflexivity. Qed.
 
+Lemma encode_pels : forall els, flat_map encode (map pel_ast els) = enc_pels els.
+Proof.
+  induction els as [|a r IH|k n es r IHe IH] using pels_ind; [reflexivity| |]; cbn [map flat_map]; rewrite IH, enc_pels_cons; f_equal.
+  - cbn [pel_ast enc_pel]. destruct a; reflexivity.
+  - cbn [pel_ast encode]. unfold enc_pkg. rewrite IHe, enc_pel_sub. reflexivity.
+Qed.
+
 Lemma encode_item : forall it, shape_ok it = true -> encode (item_ast it) = enc_item it.
 Proof.
   fix IH 1. intros [d|bk k seg fa body|lk seg fa ta|seg k n elems] Hs.
@@ -190,7 +200,7 @@ Proof.
       repeat match goal with c : targ |- _ => destruct c end;
       cbn [leaf_ast targ_ast cst_ast encode nth]; rewrite enc_seg_name; cbn [lfx lk_ws combine enc_fx fw_enc lk_op enc_ta enc_targ flat_map app]; unfold enc_const;
       rewrite ?app_nil_r, <- ?app_assoc; cbn [app]; rewrite <- ?app_assoc; reflexivity.
-  - cbn [item_ast encode]. unfold enc_pkg. rewrite enc_seg_name, encode_targs, enc_pkg_item. reflexivity.
+  - cbn [item_ast encode]. unfold enc_pkg. rewrite enc_seg_name, encode_pels, enc_pkg_item. reflexivity.
 Qed.
 
 Lemma encode_items its : forallb shape_ok its = true -> encode_table (map item_ast its) = enc_items its.
@@ -211,6 +221,20 @@ Proof.
   intros Hn. unfold name_ok in Hn. cbn [seg_name n_segs forallb] in Hn. apply andb_prop in Hn. destruct Hn as [_ Hn].
   apply andb_prop in Hn. destruct Hn as [Hseg _].
   unfold seg_ok, seg_bytes in Hseg. repeat (apply andb_prop in Hseg; destruct Hseg as [Hseg ?]). split; assumption.
+Qed.
+
+Lemma wf_pels e ms scope : forall els,
+  (fix allexpr (l : list ast) : bool := match l with [] => true | x :: r => is_expr x && wf_ast e ms scope x && allexpr r end) (map pel_ast els) = true ->
+  forallb pel_okb els = true.
+Proof.
+  induction els as [|a r IH|k n es r IHe IH] using pels_ind; intros Ha; [reflexivity| |];
+    cbn [map] in Ha; apply andb_prop in Ha; destruct Ha as [Ha Hr]; apply andb_prop in Ha; destruct Ha as [_ Ha];
+    cbn [forallb]; rewrite (IH Hr), andb_true_r.
+  - cbn [pel_ast pel_okb] in *. destruct a as [d|b]; cbn [targ_ast cst_ast wf_ast targ_okb] in *; [|exact Ha].
+    unfold cst_okb. apply andb_prop in Ha. destruct Ha as [Hc Hv]. rewrite N.shiftl_1_l in Hv. rewrite Hv, andb_true_r. exact Hc.
+  - cbn [pel_ast wf_ast] in Ha. apply andb_prop in Ha. destruct Ha as [Ha Hkk]. apply andb_prop in Ha. destruct Ha as [Hn Hall].
+    rewrite sumlen_eq, encode_pels in Hkk. rewrite pel_okb_sub, Hn, (IHe Hall), andb_true_r, andb_true_l.
+    eapply pkglen_of_k; [exact Hkk|]. rewrite lenN_app. reflexivity.
 Qed.
 
 Lemma wf_item e ms : forall it scope, shape_ok it = true -> wf_ast e ms scope (item_ast it) = true -> item_okb it = true.
@@ -263,13 +287,10 @@ Proof.
     repeat (apply andb_prop in Hw; destruct Hw as [Hw ?]); subst NOK.
     destruct (seg_ok_parts seg Hw) as (Hlead & Hseg). rewrite Hlead, Hseg. cbn [andb].
     match goal with H0 : (n <? 256) && _ && _ = true |- _ => apply andb_prop in H0; destruct H0 as [H0 Hkk]; apply andb_prop in H0; destruct H0 as [Hn Hall] end.
-    rewrite sumlen_eq, encode_targs in Hkk.
+    rewrite sumlen_eq, encode_pels in Hkk.
     repeat (apply andb_true_intro; split); try assumption.
     + eapply pkglen_of_k; [exact Hkk|]. rewrite lenN_app. reflexivity.
-    + match goal with Ha : _ (map targ_ast elems) = true |- _ => revert Ha end. clear. induction elems as [|a r IHr]; intros Ha; [reflexivity|].
-      cbn [map] in Ha. cbn in Ha. apply andb_prop in Ha. destruct Ha as [Ha Hr]. apply andb_prop in Ha. destruct Ha as [_ Ha].
-      cbn [forallb]. rewrite (IHr Hr), andb_true_r. destruct a as [d|b]; cbn [targ_ast cst_ast wf_ast targ_okb] in *; [|exact Ha].
-      unfold cst_okb. apply andb_prop in Ha. destruct Ha as [Hc Hv]. rewrite N.shiftl_1_l in Hv. rewrite Hv, andb_true_r. exact Hc.
+    + apply (wf_pels e ms scope). exact Hall.
 Qed.
 
 Lemma wf_items e ms its : forallb shape_ok its = true -> forallb (wf_ast e ms []) (map item_ast its) = true -> forallb item_okb its = true.
@@ -321,9 +342,10 @@ Proof.
   - assert (Hdp : decl_path scope (seg_name seg) = Some (scope ++ [seg])).
     { unfold decl_path, start_scope. cbn [seg_name n_root n_carets n_segs]. destruct (lenN scope <? 0) eqn:E0; [apply N.ltb_lt in E0; lia|].
       change (N.to_nat 0) with 0%nat. rewrite Nat.sub_0_r, firstn_all. reflexivity. }
-    assert (Hcst : flat_map (r_expr e scope) (map targ_ast elems) = flat_map targ_tokens elems).
-    { clear. induction elems as [|a r IHr]; [reflexivity|]. cbn [map flat_map]. rewrite IHr. f_equal.
-      destruct a as [d|b]; [|reflexivity]. unfold targ_ast, targ_tokens, cst_ast, cst_tokens. cbn [r_expr]. unfold const_tokens, const_val, tok_const. destruct (const_bytes (d_op d)); reflexivity. }
+    assert (Hcst : forall els, flat_map (r_expr e scope) (map pel_ast els) = flat_map pel_tokens els).
+    { clear. induction els as [|a r IHr|k n es r IHe IHr] using pels_ind; [reflexivity| |]; cbn [map flat_map]; rewrite IHr; f_equal.
+      - cbn [pel_ast pel_tokens]. destruct a as [d|b]; [|reflexivity]. unfold targ_ast, targ_tokens, cst_ast, cst_tokens. cbn [r_expr]. unfold const_tokens, const_val, tok_const. destruct (const_bytes (d_op d)); reflexivity.
+      - cbn [pel_ast pel_tokens r_expr]. rewrite IHe. unfold lenN. rewrite map_length. reflexivity. }
     cbn [item_ast sentry entries]. rewrite Hdp. cbn [r_expr]. rewrite Hcst. unfold pkg_entry, lenN. rewrite map_length. reflexivity.
 Qed.
 
